@@ -10,6 +10,7 @@ from fractions import Fraction
 import z3
 
 from . import ops
+from . import keyed
 from .ops import exc, binop, neg, is_number  # noqa: F401 (re-exported for symex)
 from .values import *  # noqa
 from .values import (
@@ -360,6 +361,10 @@ def contains(I, st, container, item):
                 # symbolic key against concrete keys
                 yield st, disj([eq_values(I, st, k, item) for k in e.items])
                 return
+            if keyed.needs_resolution(I, st, e.items, item):
+                for st1, k1, found in keyed.resolve_key(I, st, container, item):
+                    yield st1, (k1 if isinstance(k1, Exc) else found)
+                return
             yield st, I.hashable(item) in e.items
             return
         if e.kind == "symlist":
@@ -470,6 +475,17 @@ def getitem(I, st, obj, idx):
         if e.kind == "dict":
             if is_z3(idx):
                 yield from dict_symbolic_get(I, st, e, idx)
+                return
+            if keyed.needs_resolution(I, st, e.items, idx):
+                if e.__dict__.get("default_factory") is not None:
+                    raise Unsupported("defaultdict with keys that need == resolution")
+                for st1, k1, found in keyed.resolve_key(I, st, obj, idx):
+                    if isinstance(k1, Exc):
+                        yield st1, k1
+                    elif found:
+                        yield st1, st1.get(obj).items[k1]
+                    else:
+                        yield st1, exc("KeyError", k1)
                 return
             k = I.hashable(idx)
             if k in e.items:
@@ -634,6 +650,15 @@ def setitem(I, st, obj, idx, v):
                             yield st2, None
                 return
         if e.kind == "dict":
+            if not is_z3(idx) and keyed.needs_resolution(I, st, e.items, idx):
+                # an equal stored key keeps its place (and identity) and gets the new value, as in Python
+                for st1, k1, found in keyed.resolve_key(I, st, obj, idx):
+                    if isinstance(k1, Exc):
+                        yield st1, k1
+                    else:
+                        st1.get(obj).items[k1] = v
+                        yield st1, None
+                return
             e.items[I.hashable(idx)] = v
             yield st, None
             return
@@ -667,6 +692,16 @@ def delitem(I, st, obj, idx):
     if isinstance(obj, Ref):
         e = st.get(obj)
         if e.kind == "dict":
+            if not is_z3(idx) and keyed.needs_resolution(I, st, e.items, idx):
+                for st1, k1, found in keyed.resolve_key(I, st, obj, idx):
+                    if isinstance(k1, Exc):
+                        yield st1, k1
+                    elif found:
+                        del st1.get(obj).items[k1]
+                        yield st1, None
+                    else:
+                        yield st1, exc("KeyError", k1)
+                return
             k = I.hashable(idx)
             if k in e.items:
                 del e.items[k]
